@@ -29,7 +29,13 @@ func TestMain(m *testing.M) {
 
 func id(s string) *gen.Node { return gen.NIdent(s) }
 
-var names = []string{"main.p", "s1.p", "s2.p", "s3.p"}
+// name schemes of a script set: plain; names with directories and equal base names; names contained in one another
+var nameSchemes = [][]string{
+	{"main.p", "s1.p", "s2.p", "s3.p"},
+	{"main.p", "lib/b.p", "b.p", "x/lib/b.p"},
+	{"main.p", "in-main.p", "ain.p", "n.p"},
+	{"main.p", "s 1.p", "S1.P", "s1.ppl"},
+}
 
 type setInfo struct {
 	depth      map[string]int // call depth at which a script is (first) reached
@@ -38,6 +44,7 @@ type setInfo struct {
 
 func genSet(t *rapid.T) (*sem.Case, *setInfo, map[string]bool) {
 	n := rapid.IntRange(2, 4).Draw(t, "nscripts")
+	names := nameSchemes[rapid.SampledFrom([]int{0, 0, 1, 2, 3}).Draw(t, "namescheme")]
 	c := &sem.Case{Scripts: map[string][]*gen.Node{}, Root: "main.p", Meas: "m"}
 	feat := map[string]bool{}
 	assigned := map[string]map[string]bool{}
@@ -196,8 +203,13 @@ func TestCallTrees(t *testing.T) {
 		}
 		labels = append(labels, fmt.Sprintf("call-depth/%d", maxDepth))
 		skel := ""
-		for _, nm := range names {
-			skel += gen.Skeleton(c.Scripts[nm]) + "|"
+		var nms []string
+		for nm := range c.Scripts {
+			nms = append(nms, nm)
+		}
+		sort.Strings(nms)
+		for _, nm := range nms {
+			skel += nm + ":" + gen.Skeleton(c.Scripts[nm]) + "|"
 		}
 		judge(t, "trees", cloneCase(c), "base:"+skel, info.sharedName, labels...)
 
